@@ -1,0 +1,85 @@
+//go:build verif
+
+package ipp
+
+// Contracts for the IPP request decoder (properties C17 and C01), checked by /verif/govc.
+// Comment-only file: it adds nothing to any build.
+//
+// dec is always the bounds-checked decoder of services/decoder (its only implementation). rem(dec) is
+// the number of bytes not yet consumed, derr(dec) its sticky error. Every decode function keeps the
+// decoder well-formed, never clears the error, and - while no error has occurred - never moves the
+// cursor backwards beyond where it started (it rewinds only what it has read itself). Every loop
+// carries a measure that decreases: a truncated or malformed request ends the decoding, it cannot
+// make it run (and allocate) forever.
+//@ spec dd(dec decoder.Decoder) *decoder.Decode = unbox(dec, *decoder.Decode)
+//@ spec rem(dec decoder.Decoder) int = len(dd(dec).data) - dd(dec).offset
+//@ spec derr(dec decoder.Decoder) error = dd(dec).lasterror
+//@ spec decOK(dec decoder.Decoder) bool = dec != nil && typeis(dec, *decoder.Decode) && dd(dec) != nil && decoder.wf(dd(dec))
+// The loops test the byte read at the END of a round (for ...; tag ok; tag = dec.Byte()), so the measure
+// also counts whether that test will succeed: a failed last read (0, never a valid tag) ends the loop.
+// progress: lexicographic measure (no error so far, bytes left): a round either consumes input or sets the
+// sticky error; once the error is set a further round still has to consume input.
+//@ spec progress(dec decoder.Decoder) int = ite(derr(dec) == nil, 1<<41, 0) + rem(dec)
+//
+//@ func (*valInt).decode
+//@   check safety
+//@   requires decOK(dec)
+//@   ensures [ok] decOK(dec) && dd(dec) == old(dd(dec)) && len(dd(dec).data) == old(len(dd(dec).data))
+//@   ensures [sticky] old(derr(dec)) != nil ==> derr(dec) != nil
+//@   ensures [no-rewind] derr(dec) == nil ==> rem(dec) <= old(rem(dec))
+//@   ensures [reports] (result == nil) <==> (derr(dec) == nil)
+//@   modifies v.name, v.val, v.val[:], dd(dec).offset, dd(dec).lasterror
+//
+//@ func (*valRangeInt).decode
+//@   check safety
+//@   requires decOK(dec)
+//@   ensures [ok] decOK(dec) && dd(dec) == old(dd(dec)) && len(dd(dec).data) == old(len(dd(dec).data))
+//@   ensures [sticky] old(derr(dec)) != nil ==> derr(dec) != nil
+//@   ensures [no-rewind] derr(dec) == nil ==> rem(dec) <= old(rem(dec))
+//@   modifies v.name, v.low, v.high, dd(dec).offset, dd(dec).lasterror
+//
+// (v.tag is one of the value tags, all above 0x10: values are created by attribGroup.decode and in the
+// static model table only; with tag 0 the "same tag again" test would succeed on exhausted input.)
+//@ func (*valStr).decode
+//@   check safety
+//@   requires decOK(dec)
+//@   physical v.tag != 0
+//@   ensures [ok] decOK(dec) && dd(dec) == old(dd(dec)) && len(dd(dec).data) == old(len(dd(dec).data))
+//@   ensures [sticky] old(derr(dec)) != nil ==> derr(dec) != nil
+//@   ensures [no-rewind] derr(dec) == nil ==> rem(dec) <= old(rem(dec))
+//@   modifies v.name, v.val, v.val[:], dd(dec).offset, dd(dec).lasterror
+//@   loop 1: invariant decOK(dec) && dd(dec) == old(dd(dec)) && len(dd(dec).data) == old(len(dd(dec).data)) && (old(derr(dec)) != nil ==> derr(dec) != nil) && v.tag != 0
+//@   loop 1: invariant [tag-read] derr(dec) == nil ==> rem(dec) + 1 <= old(rem(dec))
+//@   loop 1: decreases 2*progress(dec) + ite(vtag == v.tag, 1, 0)
+//
+//@ func (*valBool).decode
+//@   check safety
+//@   requires decOK(dec)
+//@   physical v.tag != 0
+//@   ensures [ok] decOK(dec) && dd(dec) == old(dd(dec)) && len(dd(dec).data) == old(len(dd(dec).data))
+//@   ensures [sticky] old(derr(dec)) != nil ==> derr(dec) != nil
+//@   ensures [no-rewind] derr(dec) == nil ==> rem(dec) <= old(rem(dec))
+//@   modifies v.name, v.val, v.val[:], dd(dec).offset, dd(dec).lasterror
+//@   loop 1: invariant decOK(dec) && dd(dec) == old(dd(dec)) && len(dd(dec).data) == old(len(dd(dec).data)) && (old(derr(dec)) != nil ==> derr(dec) != nil) && v.tag != 0
+//@   loop 1: invariant [tag-read] derr(dec) == nil ==> rem(dec) + 1 <= old(rem(dec))
+//@   loop 1: decreases 2*progress(dec) + ite(vtag == v.tag, 1, 0)
+//
+// Attribute group: one value per round; every round consumes at least its tag byte or ends with the
+// decoder's error. Unknown value tags are not under contract here (v stays nil and the call panics; the
+// connection's recover reports it).
+//@ func (*attribGroup).decode
+//@   requires decOK(dec)
+//@   ensures [ok] decOK(dec) && dd(dec) == old(dd(dec)) && len(dd(dec).data) == old(len(dd(dec).data))
+//@   ensures [sticky] old(derr(dec)) != nil ==> derr(dec) != nil
+//@   ensures [no-rewind] derr(dec) == nil ==> rem(dec) <= old(rem(dec))
+//@   ensures [reports] result != nil ==> derr(dec) != nil
+//@   modifies *
+//@   loop 1: invariant decOK(dec) && dd(dec) == old(dd(dec)) && len(dd(dec).data) == old(len(dd(dec).data)) && (old(derr(dec)) != nil ==> derr(dec) != nil)
+//@   loop 1: invariant [tag-read] derr(dec) == nil ==> rem(dec) + 1 <= old(rem(dec))
+//@   loop 1: decreases 2*progress(dec) + ite(vtag > unsupAttribTag, 1, 0)
+//
+// Request: a truncated or malformed request ends with an error; the group loop cannot spin.
+//@ func (*ippMsg).decode
+//@   modifies *
+//@   loop 1: invariant dec != nil && decoder.wf(dec) && len(dec.data) == len(raw) && len(raw) <= 1<<40
+//@   loop 1: decreases 2*(ite(dec.lasterror == nil, 1<<41, 0) + len(dec.data) - dec.offset) + ite(dtag != endAttribTag, 1, 0)
